@@ -18,8 +18,8 @@ RULE = ('grids over {space,-,|,+} enumerated exhaustively per size (index ranges
         'has at least 2 strokes')
 ASSUMPTIONS = ['the reference renderer (c03.ref) states what spec.md and the property say the characters denote',
                'expat is a conforming XML parser']
-FLOORS = {'quick': {'distinct_nontrivial': 5000, 'outputs_with_rect': 50},
-          'thorough': {'distinct_nontrivial': 100000, 'outputs_with_rect': 500}}
+FLOORS = {'quick': {'distinct_nontrivial': 5000, 'outputs_with_rect': 1000},
+          'thorough': {'distinct_nontrivial': 100000, 'outputs_with_rect': 20000}}
 ALPHA = " -|+"
 H2 = F(1, 2)
 
@@ -177,6 +177,30 @@ def run_shard(ctx, shard):
             ctx.run_case({'grid': g})
             if i == shard['lo']:
                 ctx.sample({'grid': g})
+    elif shard['kind'] == 'boxes':
+        # 1..3 boxes of + - | planted on a canvas, then a few random overwrites (ladders, gaps, overhangs, labels)
+        rng = rng_for(ctx.seed, ID, shard['name'])
+        for i in range(shard['n']):
+            W = rng.randint(6, 14)
+            H = rng.randint(4, 8)
+            g = [[' '] * W for _ in range(H)]
+            for b in range(rng.randint(1, 3)):
+                w = rng.randint(0, 5)
+                h = rng.randint(0, 3)
+                if w + 2 > W or h + 2 > H:
+                    continue
+                ox = rng.randint(0, W - w - 2)
+                oy = rng.randint(0, H - h - 2)
+                for y, r in enumerate(gen.box(w, h)):
+                    for x, ch in enumerate(r):
+                        if ch != ' ':
+                            g[oy + y][ox + x] = ch
+            for m in range(rng.randint(0, 4)):
+                g[rng.randrange(H)][rng.randrange(W)] = rng.choice("-|+ -|+" + gen.PLAIN[:6])
+            grid = [''.join(r) for r in g]
+            ctx.run_case({'grid': grid})
+            if i == 0:
+                ctx.sample({'grid': grid})
     else:
         rng = rng_for(ctx.seed, ID, shard['name'])
         for i in range(shard['n']):
@@ -222,6 +246,7 @@ def execute(run):
         # a sample of the 3x3 space (every 7th grid: 7 is coprime to 4, all cell values in all positions)
         shards += exh_shards(3, 3, per=4096, step=7)
         shards += [{'kind': 'rand', 'name': 'rand-%d' % i, 'n': 1500} for i in range(16)]
+        shards += [{'kind': 'boxes', 'name': 'boxes-%d' % i, 'n': 1500} for i in range(8)]
         exhaustive_sizes = sizes
     else:
         sizes = [(1, 1), (2, 1), (1, 2), (2, 2), (3, 2), (2, 3), (3, 3), (4, 2), (2, 4), (8, 1), (1, 8), (5, 2), (2, 5)]
@@ -229,6 +254,7 @@ def execute(run):
             shards += exh_shards(w, h, per=16384)
         shards += exh_shards(4, 3, per=8192, step=1021)
         shards += [{'kind': 'rand', 'name': 'rand-%d' % i, 'n': 12000} for i in range(32)]
+        shards += [{'kind': 'boxes', 'name': 'boxes-%d' % i, 'n': 12000} for i in range(16)]
         exhaustive_sizes = sizes
     run.extra_cov['exhaustive_scopes'] = ['all grids over {space,-,|,+} of size %dx%d' % s for s in exhaustive_sizes]
     run.extra_cov['exhaustive'] = False
